@@ -16,6 +16,8 @@ def _oa(c, y):
 class IfThenElse(Contract):
     """if_then_else(cond, t, f): t if cond else f, for a LinCombBool condition and value branches."""
     name = "pysnark.branching:if_then_else"
+    vprops = ("C05", "C09")
+    sprops = ("C02", "C09")
     modules = ("pysnark.runtime", "pysnark.boolean", "pysnark.fixedpoint", "pysnark.branching")
 
     def configs(self, tier):
